@@ -21,6 +21,7 @@ import (
 
 	metricstorage "github.com/flant/shell-operator/pkg/metric_storage"
 	"github.com/flant/shell-operator/pkg/metric_storage/operation"
+	"github.com/flant/shell-operator/pkg/metric_storage/vault"
 
 	"verifharness/internal/core"
 )
@@ -95,6 +96,11 @@ type Batch struct {
 type Input struct {
 	Batches []Batch `json:"batches"`
 	Judged  bool    `json:"judged"`
+	// after the history: batches handed in AT THE SAME TIME, one goroutine each (none = no round)
+	Round []Batch `json:"round,omitempty"`
+	// choices taken at the yield points of the round (start order, hold a Register call or not,
+	// who registers first when several are inside); read cyclically
+	Sched []int `json:"sched,omitempty"`
 }
 
 type Series struct {
@@ -113,7 +119,8 @@ type Step struct {
 }
 
 type Observation struct {
-	Steps []Step `json:"steps"`
+	Steps []Step   `json:"steps"`
+	Conc  *ConcObs `json:"conc,omitempty"`
 }
 
 // the metrics file a hook would write
@@ -226,6 +233,18 @@ func Run(in Input) Observation {
 	quietOnce.Do(func() { log.SetDefault(log.NewNop()) })
 	ms := metricstorage.NewMetricStorage(context.Background(), "p_", true, log.NewNop())
 	var o Observation
+	var gt *gate
+	if len(in.Round) > 0 {
+		// the storage takes a prometheus.Registerer: ours passes everything through until the round starts
+		gt = newGate(ms.Registry, in.Sched)
+		gv, ok := ms.Grouped().(*vault.GroupedVault)
+		if !ok {
+			o.Conc = &ConcObs{Broken: "MetricStorage.Grouped() is not a *vault.GroupedVault"}
+			return o
+		}
+		gv.SetRegisterer(gt)
+		ms.Registerer = gt
+	}
 	for _, b := range in.Batches {
 		var st Step
 		ops, err := operation.MetricOperationsFromBytes([]byte(fileText(b.Ops)))
@@ -252,6 +271,9 @@ func Run(in Input) Observation {
 			st.Series = []Series{}
 		}
 		o.Steps = append(o.Steps, st)
+	}
+	if len(in.Round) > 0 {
+		o.Conc = runRound(ms, gt, in)
 	}
 	return o
 }
@@ -326,9 +348,29 @@ func Render(in Input, obs *Observation, crash string) core.Case {
 		}
 		return fmt.Sprintf("(%s, %s)", core.CoqBool(s.Failed), core.CoqList(ser, coqSeries))
 	})
-	c.Coq = fmt.Sprintf("(%s, %s,\n  %s)", core.CoqBool(in.Judged), input, obsTerm)
+	roundTerm, concTerm := "[]", "([], [])"
+	if len(in.Round) > 0 {
+		roundTerm = core.CoqList(in.Round, func(b Batch) string {
+			return fmt.Sprintf("(%d, %s)", b.Hook, core.CoqList(b.Ops, coqOp))
+		})
+		var co ConcObs
+		if obs != nil && obs.Conc != nil {
+			co = *obs.Conc
+		} else {
+			co.Broken = "the round was not run"
+		}
+		ser := co.Series
+		if co.Broken != "" || crash != "" {
+			ser = append(append([]Series{}, ser...), Series{Kind: 9, Name: 9999, Labels: [][2]int{}})
+		}
+		concTerm = fmt.Sprintf("(%s, %s)", core.CoqList(co.Failed, core.CoqBool), core.CoqList(ser, coqSeries))
+	}
+	c.Coq = fmt.Sprintf("(%s, %s,\n  %s,\n  (%s,\n   %s))", core.CoqBool(in.Judged), input, obsTerm, roundTerm, concTerm)
 	c.JSON = map[string]any{"steps": steps}
-	c.Key = input
+	if obs != nil && obs.Conc != nil {
+		c.JSON = map[string]any{"steps": steps, "conc": obs.Conc}
+	}
+	c.Key = input + " || " + roundTerm
 	grouped, valid, replaced := 0, 0, false
 	seenGroup := map[int]int{}
 	for bi, b := range in.Batches {
@@ -376,7 +418,87 @@ func Render(in Input, obs *Observation, crash string) core.Case {
 	// non-trivial: judged, at least two accepted batches, grouped operations, and some
 	// group reported again in a later batch (replacement actually happens)
 	c.Nontrivial = in.Judged && valid >= 2 && grouped >= 1 && replaced
+	if len(in.Round) > 0 {
+		c.Nontrivial = concTags(&c, in, obs)
+	}
 	return c
+}
+
+// concTags: distribution of the concurrent rounds; non-trivial = judged, at least two accepted
+// batches of the round carry grouped set/add operations
+func concTags(c *core.Case, in Input, obs *Observation) bool {
+	c.Tags = append(c.Tags, fmt.Sprintf("conc:goroutines-%d", len(in.Round)))
+	known := map[int]bool{}
+	for _, b := range in.Batches {
+		for _, o := range b.Ops {
+			if o.Group != 0 && o.Name != 0 {
+				known[o.Name] = true
+			}
+		}
+	}
+	users := map[int]map[int]bool{} // new grouped name -> goroutines using it
+	hooks := map[int]bool{}
+	writers := 0
+	for i, b := range in.Round {
+		hooks[b.Hook] = true
+		writes, groups := false, map[int]bool{}
+		for _, o := range b.Ops {
+			a := effAction(o)
+			if o.Group == 0 {
+				c.Tags = append(c.Tags, "conc:op-ungrouped")
+				continue
+			}
+			groups[o.Group] = true
+			if a == "expire" {
+				c.Tags = append(c.Tags, "conc:op-expire")
+				continue
+			}
+			if a == "set" || a == "add" {
+				writes = true
+				if known[o.Name] {
+					c.Tags = append(c.Tags, "conc:op-known-name")
+				} else {
+					c.Tags = append(c.Tags, "conc:op-new-name")
+					if users[o.Name] == nil {
+						users[o.Name] = map[int]bool{}
+					}
+					users[o.Name][i] = true
+				}
+			}
+		}
+		if len(groups) > 1 {
+			c.Tags = append(c.Tags, "conc:batch-with-several-groups")
+		}
+		accepted := obs != nil && obs.Conc != nil && i < len(obs.Conc.Failed) && !obs.Conc.Failed[i]
+		if accepted {
+			c.Tags = append(c.Tags, "conc:batch-accepted")
+			if writes {
+				writers++
+			}
+		} else {
+			c.Tags = append(c.Tags, "conc:batch-rejected")
+		}
+	}
+	shared := false
+	for _, u := range users {
+		if len(u) > 1 {
+			shared = true
+		}
+	}
+	if shared {
+		c.Tags = append(c.Tags, "conc:same-new-name-from-several")
+	} else if len(users) > 1 {
+		c.Tags = append(c.Tags, "conc:different-new-names")
+	}
+	if len(hooks) == 1 {
+		c.Tags = append(c.Tags, "conc:one-hook")
+	} else {
+		c.Tags = append(c.Tags, "conc:several-hooks")
+	}
+	if len(in.Batches) == 0 {
+		c.Tags = append(c.Tags, "conc:fresh-storage")
+	}
+	return in.Judged && writers >= 2
 }
 
 // ---- generation ----
@@ -478,6 +600,11 @@ func (g *gen) invalidOp() Op {
 // history builds an in-domain history. collide: groups may share (name, labels);
 // fractions: dyadic fractions occur.
 func (g *gen) history(nBatches int, collide, fractions bool) Input {
+	in, _ := g.historySch(nBatches, collide, fractions)
+	return in
+}
+
+func (g *gen) historySch(nBatches int, collide, fractions bool) (Input, map[int]*schema) {
 	g.exotic = g.r.Chance(25)
 	sch := map[int]*schema{}
 	for n := 1; n <= 6; n++ {
@@ -569,7 +696,107 @@ func (g *gen) history(nBatches int, collide, fractions bool) Input {
 		}
 		in.Batches = append(in.Batches, bt)
 	}
+	return in, sch
+}
+
+// the groups a goroutine of a round may use (pairwise different between goroutines)
+var roundGroups = [][]int{{1, 4}, {2, 5}, {3, 6}}
+
+// concurrent builds an in-domain history followed by a round of 2-3 batches handed in at the same
+// time: grouped set/add on names nobody has reported before (7, 8: the same new name from several
+// goroutines, or different ones), on names the history knows, explicit expire, some ungrouped
+// operations, now and then an invalid operation; every goroutine has groups of its own, the label
+// x tells the groups apart (value 10+group: never used by the history), so no F5a collision.
+func (g *gen) concurrent() Input {
+	in, sch := g.historySch(g.r.Intn(4), false, true)
+	sch[7] = &schema{kind: 1 + g.r.Intn(2), grouped: true}
+	sch[8] = &schema{kind: 1 + g.r.Intn(2), grouped: true}
+	var groupedNames, freeNames []int
+	for n := 1; n <= 6; n++ {
+		if sch[n].grouped {
+			groupedNames = append(groupedNames, n)
+		} else {
+			freeNames = append(freeNames, n)
+		}
+	}
+	nT := 2
+	if g.r.Chance(35) {
+		nT = 3
+	}
+	oneHook := g.r.Chance(20)
+	sharedNew := 7 + g.r.Intn(2)
+	for t := 0; t < nT; t++ {
+		bt := Batch{Hook: 1 + t}
+		if oneHook {
+			bt.Hook = 1
+		}
+		nOps := 1 + g.r.Intn(4)
+		for len(bt.Ops) < nOps {
+			grp := roundGroups[t][g.r.Intn(2)]
+			switch {
+			case g.r.Chance(12):
+				o := Op{Group: grp, Action: "expire"}
+				if g.r.Chance(30) {
+					o.Name = 7
+				}
+				bt.Ops = append(bt.Ops, o)
+				continue
+			case len(freeNames) > 0 && g.r.Chance(12):
+				n := freeNames[g.r.Intn(len(freeNames))]
+				s := sch[n]
+				o := Op{Name: n, Labels: [][2]int{}}
+				for _, ln := range s.names {
+					o.Labels = append(o.Labels, [2]int{ln, g.labelValue(ln, 15)})
+				}
+				g.fill(&o, s)
+				bt.Ops = append(bt.Ops, o)
+				continue
+			}
+			n := sharedNew
+			if g.r.Chance(25) {
+				n = 7 + g.r.Intn(2)
+			} else if len(groupedNames) > 0 && g.r.Chance(45) {
+				n = groupedNames[g.r.Intn(len(groupedNames))]
+			}
+			o := Op{Group: grp, Name: n, Labels: g.subsetLabels([]int{1, 2, 3, 12}, 20)}
+			o.Labels = setLabel(o.Labels, 11, 10+grp)
+			g.fill(&o, sch[n])
+			bt.Ops = append(bt.Ops, o)
+		}
+		if g.r.Chance(10) {
+			k := g.r.Intn(len(bt.Ops) + 1)
+			ops := append([]Op{}, bt.Ops[:k]...)
+			ops = append(ops, g.invalidOp())
+			bt.Ops = append(ops, bt.Ops[k:]...)
+		}
+		in.Round = append(in.Round, bt)
+	}
+	for k := 0; k < 8; k++ {
+		in.Sched = append(in.Sched, g.r.Intn(12))
+	}
 	return in
+}
+
+// fill gives the operation its action and value according to the name's schema
+func (g *gen) fill(o *Op, s *schema) {
+	v := g.value(s.kind, true)
+	shortcutField := g.r.Chance(30)
+	switch s.kind {
+	case 1:
+		if shortcutField {
+			o.Add = ip(v)
+		} else {
+			o.Action, o.Value = "add", ip(v)
+		}
+	case 2:
+		if shortcutField {
+			o.Set = ip(v)
+		} else {
+			o.Action, o.Value = "set", ip(v)
+		}
+	case 3:
+		o.Action, o.Value, o.Buckets = "observe", ip(g.r.Intn(100)), s.buckets
+	}
 }
 
 // wild builds an out-of-domain history (informational stream, never judged).
@@ -638,6 +865,25 @@ func Corpus() []Input {
 		j(Batch{1, []Op{{Group: 1, Name: 1, Action: "add", Value: ip(12), Labels: lbl(1, 1)}, {Group: 1, Name: 1, Action: "add", Value: ip(12), Labels: lbl(1, 1)}}}),
 		// F5c (repaired): the `add` shortcut on a grouped counter was applied twice
 		j(Batch{1, []Op{{Group: 1, Name: 1, Add: ip(8), Labels: lbl(1, 1)}}}),
+		// two hooks report the same NEW metric name at the same time, each in a group of its own, on a fresh storage
+		{Judged: true, Batches: []Batch{}, Sched: []int{1, 1, 1, 1},
+			Round: []Batch{{1, []Op{{Group: 1, Name: 7, Action: "set", Value: ip(24), Labels: lbl(1, 1)}}},
+				{2, []Op{{Group: 2, Name: 7, Action: "set", Value: ip(12), Labels: lbl(1, 2)}}}}},
+		// the same, the other one registers first; counters; three goroutines
+		{Judged: true, Batches: []Batch{}, Sched: []int{1, 2, 3, 1, 5, 2},
+			Round: []Batch{{1, []Op{{Group: 1, Name: 8, Action: "add", Value: ip(8), Labels: lbl(1, 1)}}},
+				{2, []Op{{Group: 2, Name: 8, Add: ip(12), Labels: lbl(2, 2)}}},
+				{3, []Op{{Group: 3, Name: 8, Action: "add", Value: ip(16)}, {Group: 3, Name: 7, Action: "set", Value: ip(4)}}}}},
+		// after a history: a known name, a new one, replacement of a group of the history, expire of another, an ungrouped add
+		{Judged: true, Sched: []int{3, 1, 2, 1, 1, 7},
+			Batches: []Batch{{1, []Op{{Group: 1, Name: 1, Action: "set", Value: ip(8), Labels: lbl(1, 1)}, {Group: 2, Name: 1, Action: "set", Value: ip(16), Labels: lbl(1, 2)},
+				{Name: 3, Action: "add", Value: ip(4), Labels: lbl(2, 1)}}}},
+			Round: []Batch{{1, []Op{{Group: 1, Name: 1, Action: "set", Value: ip(40), Labels: lbl(1, 2)}, {Group: 4, Name: 7, Action: "set", Value: ip(12), Labels: lbl(11, 14)}}},
+				{2, []Op{{Group: 2, Action: "expire"}, {Group: 5, Name: 7, Action: "set", Value: ip(20), Labels: lbl(11, 15)}, {Name: 3, Action: "add", Value: ip(4), Labels: lbl(2, 1)}}}}},
+		// one of the concurrent batches is invalid: nothing of it is applied, the other one is
+		{Judged: true, Batches: []Batch{}, Sched: []int{2, 1, 1},
+			Round: []Batch{{1, []Op{{Group: 1, Name: 7, Action: "set", Value: ip(8)}, {Group: 1, Name: 8, Action: "observe", Value: ip(8), Buckets: []int{8}}}},
+				{2, []Op{{Group: 2, Name: 7, Action: "set", Value: ip(16)}}}}},
 	}
 }
 
@@ -647,16 +893,18 @@ func Gen(r *core.Rng, tier string) ([]core.In[Input], bool) {
 		ins = append(ins, core.In[Input]{Input: c, Stream: "corpus"})
 	}
 	g := &gen{r: r}
-	n, maxB := 300, 6
+	n, maxB := 400, 6
 	switch tier {
 	case "thorough":
-		n, maxB = 10000, 9
+		n, maxB = 13000, 9
 	case "search":
-		n, maxB = 2500, 6
+		n, maxB = 3200, 6
 	}
 	for i := 0; i < n; i++ {
 		nb := 1 + g.r.Intn(maxB)
 		switch {
+		case i%4 == 3:
+			ins = append(ins, core.In[Input]{Input: g.concurrent(), Stream: "concurrent"})
 		case i%10 == 9:
 			ins = append(ins, core.In[Input]{Input: g.wild(nb), Stream: "informational"})
 		case i%10 >= 6:
@@ -670,6 +918,6 @@ func Gen(r *core.Rng, tier string) ([]core.In[Input], bool) {
 
 var Driver = core.Driver[Input, Observation]{
 	Spec: core.Spec{Property: "C16", Imports: []string{"C16_Model", "C16_Spec", "C16_Corr"}, Corr: "C16_Corr", Triggers: []string{"F5a"}, ShrinkKey: "batches",
-		Rule: "histories of metric batches written as hooks write them (JSON lines, parsed by the real operation package) sent to a real MetricStorage with its own registry, Gather() canonicalised after every batch; 2 hooks, 3 groups, 6 metric names with a per-history schema (kind, grouped or not, ungrouped label names, buckets), varying label shapes with empty values for grouped metrics, integer and dyadic values, add/set shortcut fields, explicit expire, 15% of batches with one invalid operation; streams: corpus, random (groups never share (name, labels)), trigger (they may: F5a), informational (out-of-domain, never judged); the implementation's observations are judged against the model run with EVERY order of the batch's groups (Go map iteration); non-trivial = judged, >= 2 accepted batches, grouped operations, some group reported again in a later batch; distinct = distinct input term"},
+		Rule: "histories of metric batches written as hooks write them (JSON lines, parsed by the real operation package) sent to a real MetricStorage with its own registry, Gather() canonicalised after every batch; 2 hooks, 3 groups, 6 metric names with a per-history schema (kind, grouped or not, ungrouped label names, buckets), varying label shapes with empty values for grouped metrics, integer and dyadic values, add/set shortcut fields, explicit expire, 15% of batches with one invalid operation; streams: corpus, random (groups never share (name, labels)), trigger (they may: F5a), informational (out-of-domain, never judged); the implementation's observations are judged against the model run with EVERY order of the batch's groups (Go map iteration); non-trivial = judged, >= 2 accepted batches, grouped operations, some group reported again in a later batch; stream concurrent (every 4th): a history, then a ROUND of 2-3 batches handed in at the same time by one goroutine each (groups pairwise different between goroutines; grouped set/add on the same new metric name from several goroutines, on different new names, on names the history knows, explicit expire, some ungrouped operations, 10% with an invalid operation; one hook or several), the interleaving steered through a prometheus.Registerer wrapper (a Register call is held until another goroutine is inside Register too, or all others are parked or have returned, or 3 ms have passed; who registers first, start order and staggered start are choices from the input's sched list); compared only after all goroutines have returned: failure flags, and Gather() judged against the model with the round's batches as atomic steps in EVERY order, P_case = the reference registry after SOME order; non-trivial there = judged and >= 2 accepted batches of the round with grouped set/add; distinct = distinct input term (history and round)"},
 	Gen: Gen, Run: Run, Render: Render, PerShard: 700, Workers: 8, CaseTimout: 30 * time.Second,
 }
